@@ -243,6 +243,22 @@ let cmd_c15 (args : sx list) : sx =
        | OutOfFuel -> L [A "out-of-fuel"])
   | _ -> failwith "c15 args"
 
+(* ManyMatcher glue: which input positions are handed to the builder, get_pattern, n_patterns *)
+let cmd_glue (args : sx list) : sx =
+  match args with
+  | [A fb; flags] ->
+      let pats = List.mapi (fun i f -> (i, sx_bool f)) (sx_list (fun x -> x) flags) in
+      let convert (p : int * bool) : (unit, int) sum = if snd p then Inr (fst p) else Inl () in
+      let fb = if fb = "skip" then FSkip else FFail in
+      (match compile convert fb pats with
+       | Inl () -> L [A "err"]
+       | Inr l ->
+           let ids = List.map fst l in
+           let table = pattern_table pats ids in
+           L [A "ok"; L (List.map n_sx ids); int_sx (int_of_nat (n_patterns table));
+              L (List.mapi (fun i _ -> match get_pattern table (n_of_int i) with Some (tag, _) -> int_sx tag | None -> A "-") pats)])
+  | _ -> failwith "glue args"
+
 (* the verified history validator on what the implementation emitted *)
 let cmd_c15v (args : sx list) : sx =
   match args with
@@ -541,6 +557,7 @@ let dispatch (x : sx) : sx =
   | L (A "c14" :: args) -> cmd_c14 args
   | L (A ("c15" | "c15x") :: args) -> cmd_c15 args
   | L (A "c15v" :: args) -> cmd_c15v args
+  | L (A "glue" :: args) -> cmd_glue args
   | L (A ("tree" | "powerset" | "conditioned" | "with-children" | "pairwise" | "transitive") :: _) -> cmd_c10 x
   | L ((A ("aut-run" | "cvec" | "single" | "naive" | "cert" | "occ")) :: _ as args) -> cmd_engine args
   | L (A ("tab-run" | "tab-cert") :: _) -> cmd_tab x
